@@ -104,7 +104,8 @@ func Changes(cmd CommandRunner, baseBranch string, filter PathFilter) ([]*FileCh
 		}
 
 		// This should never really happen since git doesn't track directories, only files.
-		if isDir, _ := isDirectoryPath(dstPath); isDir {
+		// A deleted file can be replaced with a directory of the same name, that's still a deletion.
+		if isDir, _ := isDirectoryPath(dstPath); isDir && status != FileDeleted {
 			slog.Debug("Skipping directory entry change", slog.String("path", dstPath))
 			continue
 		}
